@@ -105,7 +105,7 @@ CLAIMED["C04"] = ("§0.6 / §4 C04",
 
 CLAIMED["C13"] = ("§0.7 / §4 C13",
     "registry exhaustiveness of the generated keyword table, def-use analysis of the per-schema state against the table's phase numbers (who writes / who reads each field, transitively through helpers, stopping at child-state constructors), operator tables of the bound keywords in both directions by finite case analysis, CFG gates on the keyword dispatcher",
-    "Narrow: decides structural necessary conditions of the keyword translation — every keyword of the conformance subset has exactly one translating handler; a handler that reads per-schema state written by another keyword's handler runs in a strictly later phase (exclusiveMinimum before minimum, minContains before contains, properties/patternProperties before additionalProperties, properties before required, $schema first, ...) and state shared across phases is only narrowed; each bound keyword adds its constraint for the right core type with the right operator/builtin, and the generator spells each operator as the keyword the importer reads back as that operator (including the boolean-exclusive dialects); the dispatcher calls a handler only in its own phase and only for schema versions it is defined for. It does NOT decide that the CUE built for a keyword or a combination of keywords accepts exactly the instances JSON Schema prescribes (matchN/matchIf/closedness interactions): that is the core of the property and needs an independent validator as oracle.",
+    "Narrow: decides structural necessary conditions of the keyword translation — every keyword of the conformance subset has exactly one translating handler; a handler that reads per-schema state written by another keyword's handler runs in a strictly later phase (exclusiveMinimum before minimum, minContains before contains, properties/patternProperties before additionalProperties, properties before required, $schema first, ...) and state shared across phases is only narrowed; each bound keyword adds its constraint for the right core type with the right operator/builtin, and the generator spells each operator as the keyword the importer reads back as that operator (including the boolean-exclusive dialects); the dispatcher calls a handler only in its own phase and only for schema versions it is defined for; the type-name table of the type keyword; a count handed to matchN is the length of the list handed to it; a handler that inspects the collected object fields never shares a phase with one that adds fields; the generator emits the collected object constraints whenever any exist and its keyword-interaction table is symmetric. Two genuine defects found by these rules were repaired in /repo (allOf counted dropped members; the generator dropped all object constraints when properties, required and patterns were all present) and one is a known finding (a boolean false sub-schema is dropped by the combinators). It does NOT decide that the CUE built for a keyword or a combination of keywords accepts exactly the instances JSON Schema prescribes (matchN/matchIf/closedness interactions): that is the core of the property and needs an independent validator as oracle.",
     "constraints_gen.go is what is compiled in; CUE builtins (strings.MinRunes, list.MatchN, struct.MinFields, ...) trusted")
 
 # properties not claimed (yet) -> reason
